@@ -501,15 +501,53 @@ def structure_tracer():
 
     def sf_term_nodisp(hkl, ucell, rot, trans, pos, U, occ, multi, nsymop, f):
         return _sf_term('Uiso', hkl, ucell, rot, trans, pos, U, occ, multi, nsymop, f, 0.0, 0.0, with_disper=False)
+    def _sf_general(hkl, ucell, ops, atomspecs, disper, nsymop):
+        """StructureFactor itself on a symbolic structure: ops = [(rot, trans)], atomspecs = [(type, kind, adp, pos, occ, multi, f)]"""
+        cnt = NsymInt(len(ops))
+        cnt._sym = nsymop
+        stub = _Atom()
+        stub.nsymop = cnt
+        r = _np.empty((len(ops), 3, 3), dtype=object)
+        tt = _np.empty((len(ops), 3), dtype=object)
+        for i, (ro, tr) in enumerate(ops):
+            r[i] = _np.asarray(ro, dtype=object)
+            tt[i] = _np.asarray(tr, dtype=object)
+        stub.rot, stub.trans = r, tt
+        sgproxy.stub = stub
+        atoms, ff = [], {}
+        for (typ, kind, adp, pos, occ, multi, f) in atomspecs:
+            a = _Atom()
+            a.adp_type, a.adp, a.atomtype, a.pos, a.occ, a.symmulti = kind, adp, typ, _np.asarray(pos, dtype=object), occ, multi
+            atoms.append(a)
+            ff[typ] = f
+        saved = st.FormFactor
+        st.FormFactor = lambda atomtype, stl: ff[atomtype]
+        try:
+            out = st.StructureFactor(_np.asarray(hkl, dtype=object), ucell, 'anything', atoms, disper)
+        finally:
+            st.FormFactor = saved
+        return _np.array([out[0], out[1]], dtype=object)
+
+    def sf_two_atoms(hkl, ucell, rot, trans, pos1, pos2, U1, occ1, occ2, multi1, multi2, nsymop, f1, f2, fp, fpp):
+        """two atoms, one operation; the dispersion table has an entry for the first type and None for the second (listed after it)"""
+        return _sf_general(hkl, ucell, [(rot, trans)], [('X', 'Uiso', U1, pos1, occ1, multi1, f1), ('Y', None, 0.0, pos2, occ2, multi2, f2)],
+                           {'X': [fp, fpp], 'Y': None}, nsymop)
+
+    def sf_two_ops(hkl, ucell, rot1, trans1, rot2, trans2, pos, adp, occ, multi, nsymop, f, fp, fpp):
+        """one anisotropic atom, two operations"""
+        return _sf_general(hkl, ucell, [(rot1, trans1), (rot2, trans2)], [('X', 'Uani', list(adp), pos, occ, multi, f)], {'X': [fp, fpp]}, nsymop)
     sigs = [('FormFactor_coeffs', ['R'] * 10, 'R'),
             ('Uij2betaij', ['V6', 'V6'], 'M3'),
             ('sf_term_uiso', ['V3', 'V6', 'M3', 'V3', 'V3', 'R', 'R', 'R', 'R', 'R', 'R', 'R'], 'V2'),
             ('sf_term_uani', ['V3', 'V6', 'M3', 'V3', 'V3', 'V6', 'R', 'R', 'R', 'R', 'R', 'R'], 'V2'),
             ('sf_term_noadp', ['V3', 'V6', 'M3', 'V3', 'V3', 'R', 'R', 'R', 'R', 'R', 'R'], 'V2'),
-            ('sf_term_nodisp', ['V3', 'V6', 'M3', 'V3', 'V3', 'R', 'R', 'R', 'R', 'R'], 'V2')]
+            ('sf_term_nodisp', ['V3', 'V6', 'M3', 'V3', 'V3', 'R', 'R', 'R', 'R', 'R'], 'V2'),
+            ('sf_two_atoms', ['V3', 'V6', 'M3', 'V3', 'V3', 'V3'] + ['R'] * 10, 'V2'),
+            ('sf_two_ops', ['V3', 'V6', 'M3', 'V3', 'M3', 'V3', 'V3', 'V6'] + ['R'] * 6, 'V2')]
     return ModuleTracer('xfab.structure', 'structure_', sigs, 'n', patches={'atomlib': proxy, 'sg': sgproxy},
                         extra_defs={'FormFactor_coeffs': FormFactor_coeffs, 'sf_term_uiso': sf_term_uiso, 'sf_term_uani': sf_term_uani,
-                                    'sf_term_noadp': sf_term_noadp, 'sf_term_nodisp': sf_term_nodisp})
+                                    'sf_term_noadp': sf_term_noadp, 'sf_term_nodisp': sf_term_nodisp,
+                                    'sf_two_atoms': sf_two_atoms, 'sf_two_ops': sf_two_ops})
 
 
 def symmetry_tracer():
